@@ -1,6 +1,7 @@
 (* Model/Framing.v — executable model of internal/stream StreamProcessor.WritePacket / ReadPacket
-   (stream_processor_write.go, stream_processor_read.go, packet/packet.go) after the two C01 fixes
-   (length always written for non-heartbeat packets; length field read with io.ReadFull).
+   (stream_processor_write.go, stream_processor_read.go, packet/packet.go) after the C01/C05 fixes
+   (length always written for non-heartbeat packets; length field read with io.ReadFull; inflated body
+   limited to MaxPacketBodySize).
    Definitions only; proofs are in Proofs/Framing.v. *)
 From TX Require Export Base.Bytes Base.Chunks.
 
@@ -23,9 +24,10 @@ Inductive pres :=
 
 (* variants kept to state the two repaired defects as refuted lemmas about the pinned tree *)
 Record fvariant := { v_single_len_read : bool;   (* pinned tree: one Read for the 4-byte length *)
-                     v_omit_empty_len : bool }.  (* pinned tree: no length field for an empty body *)
-Definition current_variant := {| v_single_len_read := false; v_omit_empty_len := false |}.
-Definition pinned_variant := {| v_single_len_read := true; v_omit_empty_len := true |}.
+                     v_omit_empty_len : bool;    (* pinned tree: no length field for an empty body *)
+                     v_unbounded_inflate : bool }. (* pinned tree: io.Copy of the gzip stream without a limit (C05) *)
+Definition current_variant := {| v_single_len_read := false; v_omit_empty_len := false; v_unbounded_inflate := false |}.
+Definition pinned_variant := {| v_single_len_read := true; v_omit_empty_len := true; v_unbounded_inflate := true |}.
 
 Section Framing.
   Variable V : fvariant.
@@ -57,7 +59,13 @@ Section Framing.
   Definition finish (ty : N) (body : list byte) (consumed : N) : pres :=
     if is_encrypted ty then PErr EEncrypted consumed
     else
-      let after := if is_compressed ty then inflate body else Some body in
+      (* decompressData: io.Copy through LimitReader(MaxBody+1); a larger result is rejected *)
+      let after := if is_compressed ty
+                   then match inflate body with
+                        | None => None
+                        | Some b => if negb (v_unbounded_inflate V) && (MaxBody <? lenN b) then None else Some b
+                        end
+                   else Some body in
       match after with
       | None => PErr EInflate consumed
       | Some b => if is_json_cmd ty
